@@ -384,8 +384,9 @@ func oddRequest(rt *rapid.T, p *pool, label string) (*gpb.SetRequest, []string) 
 		return l, rapid.IntRange(0, len(*l)-1).Draw(rt, label+".uidx")
 	}
 	for i := 0; i < nmut; i++ {
-		mut := rapid.SampledFrom([]string{"nil-update", "nil-path", "nil-val", "empty-update", "dup-leaflist", "odd-path", "odd-val", "odd-prefix", "nil-delete", "odd-delete",
-			"dup-update", "add-odd-update", "json-mutated", "update-to-replace", "duplicates-field"}).Draw(rt, label+".rmut")
+		// nil elements of repeated fields (Go-only states) have low weight: one slot each in the middle of the list
+		mut := rapid.SampledFrom([]string{"nil-path", "nil-val", "odd-path", "odd-val", "dup-leaflist", "empty-update", "odd-prefix", "odd-delete", "nil-update", "json-mutated",
+			"nil-delete", "dup-update", "update-to-replace", "duplicates-field", "add-odd-update", "odd-path", "odd-val", "json-mutated", "nil-val", "nil-path"}).Draw(rt, label+".rmut")
 		applied := true
 		switch mut {
 		case "nil-update":
@@ -507,7 +508,8 @@ func oddNotifs(rt *rapid.T, p *pool, label string) ([]*gpb.Notification, []strin
 	var classes []string
 	nmut := rapid.SampledFrom([]int{0, 1, 1, 2, 3}).Draw(rt, label+".nmut")
 	for i := 0; i < nmut; i++ {
-		mut := rapid.SampledFrom([]string{"nil-notification", "nil-update", "nil-path", "nil-val", "odd-prefix", "delete", "odd-delete", "atomic", "json-update", "odd-val", "odd-path", "empty-notification", "dup-leaflist"}).Draw(rt, label+".nmutk")
+		mut := rapid.SampledFrom([]string{"nil-path", "nil-val", "odd-prefix", "delete", "odd-delete", "atomic", "nil-update", "json-update", "nil-notification", "odd-val", "odd-path", "empty-notification", "dup-leaflist",
+			"json-update", "odd-val", "odd-path", "atomic", "delete"}).Draw(rt, label+".nmutk")
 		var n *gpb.Notification
 		if len(ns) > 0 {
 			n = ns[rapid.IntRange(0, len(ns)-1).Draw(rt, label+".nidx")]
